@@ -420,7 +420,7 @@ def run(tier, replay=None):
         rep.add_tlc(g)
         if g["violated"]:
             raise vlib.ToolError("generator run reported a violation: %s" % g["violated"])
-        if g["n_replays"] == 0:
+        if g["n_replays"] == 0 and not g.get("stopped"):
             raise vlib.ToolError("generator produced no behaviour")
         summ = [o for o in out if o.get("kind") == "summary"]
         if not summ:
